@@ -141,5 +141,7 @@ Definition serve (fs : fsys) (root : list elem) (meth name ae def : bytes) (comp
 
 Example clean_ex1 : clean_name [47;97;47;46;46;47;46;46;47;98] = [[98]].   (* "/a/../../b" -> /b *)
 Proof. reflexivity. Qed.
-Example has_token_ex : has_token [71;90;73;80;44;32;98;114] GZIP = true /\ has_token [120;103;122;105;112] GZIP = false.
-Proof. split; reflexivity. Qed.
+Example has_token_ex1 : has_token [71;90;73;80;44;32;98;114] GZIP = true.       (* "GZIP, br" *)
+Proof. reflexivity. Qed.
+Example has_token_ex2 : has_token [120;103;122;105;112] GZIP = false.            (* "xgzip" *)
+Proof. reflexivity. Qed.
